@@ -1750,6 +1750,7 @@ class BADS:
 
         else:
             # Search set is empty
+            u_search = np.empty(0)
             y_search = self.yval
             f_mu_search = self.fval
             f_sd_search = 0
